@@ -338,6 +338,114 @@ void add_s6(mc::Runner &R, const std::string &name, int W, int H, bool quick, bo
   R.add(s);
 }
 
+// ------------------------------------------------------------------ S8: full grids whose values use the whole quantization / integer range
+// Interior vertices of a grid have 2..4 parallelograms; with 26..30 quantization bits (or integers near +-2^28) every
+// prediction is close to the type limit, so sums of predictions, residuals and entropy-estimate symbols reach 2^31.
+void add_s8(mc::Runner &R, const std::string &name, std::vector<int> sizes, bool quick, bool thorough) {
+  // (cfg 7: eb std s0/s1/s5, eb valence s0/s1/s5, sequential s0) x (prediction 5: auto, difference, parallelogram, multi (deprecated),
+  // constrained multi) x (representation 8) x (field 5) x sizes
+  // representations 6,7: explicit quantization box [0,1]^3 at 30 / 29 bits with all data in the top 2^-10 of the box: every quantized
+  // value is within 2^20 of the maximum, so residuals (and the encoder's entropy-estimate tables) stay small while predictions
+  // a+b-c exceed the maximum and sums of 2..4 of them pass 2^31.
+  mc::Radix rx{7, 5, 8, 5, (uint64_t)sizes.size()};
+  auto make = [=](uint64_t idx, GeomDef *g, EncCfg *c, std::string *d) {
+    auto dg = rx.decode(idx);
+    const int N = sizes[dg[4]];
+    g->is_mesh = true;
+    g->num_points = N * N;
+    for (int y = 0; y + 1 < N; ++y)
+      for (int x = 0; x + 1 < N; ++x) {
+        const int a = y * N + x, b = a + 1, c2 = a + N, e = c2 + 1;
+        g->faces.push_back({a, b, e});
+        g->faces.push_back({a, e, c2});
+      }
+    AttDef pos;
+    pos.type = GeometryAttribute::POSITION;
+    pos.nc = 3;
+    pos.uid = 0;
+    static const char *fields[5] = {"sine height field", "ramp x+y", "checker of range extremes", "plane at the maximum with one minimum corner", "hash noise"};
+    static const char *reps[8] = {"float q30", "float q29", "float q24", "int32 within +-2^28", "uint16 full range", "int8 full range",
+                                  "float q30 explicit box [0,1], data in the top 2^-10", "float q29 explicit box [0,1], data in the top 2^-10"};
+    auto field = [&](int x, int y, int k) -> double {  // in [0,1]
+      const double u = (double)x / (N - 1), v = (double)y / (N - 1);
+      switch (dg[3]) {
+        case 0: return k == 0 ? u : k == 1 ? v : 0.5 + 0.5 * std::sin(x * 0.3) * std::cos(y * 0.2);
+        case 1: return k == 0 ? u : k == 1 ? v : (u + v) / 2;
+        case 2: return k == 0 ? u : k == 1 ? v : (double)((x + y) & 1);
+        case 3: return k == 2 ? ((x == 0 && y == 0) ? 0.0 : 1.0) : (k == 0 ? u : v);
+        default: return (double)((uint32_t)(x * 73856093u ^ y * 19349663u ^ k * 83492791u) % 1001) / 1000.0;
+      }
+    };
+    for (int i = 0; i < g->num_points; ++i) {
+      const int x = i % N, y = i / N;
+      double f[3] = {field(x, y, 0), field(x, y, 1), field(x, y, 2)};
+      switch (dg[2]) {
+        case 0: case 1: case 2:
+          pos.dt = DT_FLOAT32;
+          pos.entries.push_back(bytes_of(std::vector<float>{(float)f[0], (float)f[1], (float)f[2]}));
+          break;
+        case 6: case 7:
+          pos.dt = DT_FLOAT32;
+          for (double &t : f) t = 1.0 - (1.0 - t) / 1024.0;
+          pos.entries.push_back(bytes_of(std::vector<float>{(float)f[0], (float)f[1], (float)f[2]}));
+          break;
+        case 3: {
+          pos.dt = DT_INT32;
+          auto m = [](double t) { return (int32_t)std::llround((2 * t - 1) * 268435456.0); };
+          pos.entries.push_back(bytes_of(std::vector<int32_t>{m(f[0]), m(f[1]), m(f[2])}));
+          break;
+        }
+        case 4: {
+          pos.dt = DT_UINT16;
+          auto m = [](double t) { return (uint16_t)std::llround(t * 65535.0); };
+          pos.entries.push_back(bytes_of(std::vector<uint16_t>{m(f[0]), m(f[1]), m(f[2])}));
+          break;
+        }
+        default: {
+          pos.dt = DT_INT8;
+          auto m = [](double t) { return (int8_t)(std::llround(t * 255.0) - 128); };
+          pos.entries.push_back(bytes_of(std::vector<int8_t>{m(f[0]), m(f[1]), m(f[2])}));
+          break;
+        }
+      }
+    }
+    g->atts = {pos};
+    static const int mk[7] = {2, 2, 2, 3, 3, 3, 0}, sp[7] = {0, 1, 5, 0, 1, 5, 0};
+    *c = gs::mesh_cfg(mk[dg[0]], sp[dg[0]]);
+    static const int q[8] = {30, 29, 24, 0, 0, 0, 30, 29};
+    c->qbits = {q[dg[2]]};
+    if (dg[2] >= 6) c->explicit_q[0] = {std::vector<float>{0.f, 0.f, 0.f}, 1.0f};
+    static const int pr[5] = {-100, PREDICTION_DIFFERENCE, MESH_PREDICTION_PARALLELOGRAM, MESH_PREDICTION_MULTI_PARALLELOGRAM,
+                              MESH_PREDICTION_CONSTRAINED_MULTI_PARALLELOGRAM};
+    c->pred = {pr[dg[1]]};
+    if (d) *d = std::to_string(N) + "x" + std::to_string(N) + " vertex grid, " + fields[dg[3]] + ", " + reps[dg[2]];
+  };
+  mc::Space s;
+  s.name = name;
+  s.size = rx.size();
+  s.quick = quick;
+  s.thorough = thorough;
+  s.timeout_s = 120;
+  s.run = [=](uint64_t idx, mc::Ctx &ctx) {
+    GeomDef g;
+    EncCfg c;
+    make(idx, &g, &c, nullptr);
+    auto r = rt::check_roundtrip(g, c, ctx, "", !g_c09, g_c09);
+    if (r.decoded) {
+      ctx.count("cases_with_full_range_grid");
+      ctx.nontrivial_unique();
+    }
+  };
+  s.describe = [=](uint64_t idx) {
+    GeomDef g;
+    EncCfg c;
+    std::string d;
+    make(idx, &g, &c, &d);
+    return d + " " + text(c);
+  };
+  R.add(s);
+}
+
 // ------------------------------------------------------------------ S7: attribute order, unique ids, two attributes of one type
 void add_s7(mc::Runner &R, const std::string &name, bool quick, bool thorough) {
   // attribute pool
@@ -998,6 +1106,8 @@ int main(int argc, char **argv) {
       add_s3(R, "asan_S3_quick", q, true, true, false, true);
       add_s3(R, "asan_S3", t, false, true, true);
       add_s7(R, "asan_S7_attribute_order_and_ids", true, true);
+      add_s8(R, "asan_S8_full_range_grids", {4, 8}, true, true);
+      add_s8(R, "asan_S8_full_range_grids_12_24", {12, 24}, false, true);
       add_s4(R, "asan_S4_N3", 3, {0, 4, 10}, true, false);
       add_s4(R, "asan_S4_N4", 4, {0, 1, 2, 3, 4, 5, 6, 7, 8, 9, 10}, false, true);
       add_s5(R, "asan_S5", false, true, false);
